@@ -112,7 +112,9 @@ def partition_deck(rnd, nsurf=3, ncells=3, max_leaves=4, allow=None, imp_zero_la
     rest = tuple(('cell', j + 1) for j in range(ncells - 1))
     e = ('and',) + rest if len(rest) > 1 else rest[0]
     zero = imp_zero_last if imp_zero_last is not None else (rnd.random() < 0.6)
-    d.cells.append(dk.Cell(ncells, e, imp=0 if zero else 1))
+    # cell numbers need not be consecutive: the numbers handed out to helper volumes start after the largest one
+    last_id = ncells + (rnd.randint(1, 8) if rnd.random() < 0.4 else 0)
+    d.cells.append(dk.Cell(last_id, e, imp=0 if zero else 1))
     return d, pool.pre
 
 
@@ -156,7 +158,7 @@ def rand_tr(rnd, prefix, pre, sym=True, rot=True, budget=None):
     return disp + list(R)
 
 
-def fill_deck(rnd, depth=1, reuse=False, spelling=None, inner='slab', nsym=3, empty_cell=None):
+def fill_deck(rnd, depth=1, reuse=False, spelling=None, inner='slab', nsym=3, empty_cell=None, mirror=False):
     """Container(s) at level 0 filled with a universe; optionally a second level."""
     d = dk.Deck()
     pre = []
@@ -199,10 +201,18 @@ def fill_deck(rnd, depth=1, reuse=False, spelling=None, inner='slab', nsym=3, em
     def universe_cells(u, level):
         """cells partitioning universe u; returns nothing (cells appended)"""
         a = bud.num('u%d' % u, pre, positive=(inner == 'sphere'), choices=[Fr(1, 2), 1, Fr(3, 4)])
-        shape = inner if inner != 'rand' else rnd.choice(['slab', 'sphere', 'two'])
+        shape = inner if inner != 'rand' else rnd.choice(['slab', 'sphere', 'two', 'union'])
         if shape == 'slab':
             s = new_surf(rnd.choice(['px', 'py']), [a])
             regs = [('s', -s), ('s', s)]
+        elif shape == 'zslab':
+            s = new_surf('pz', [a])
+            regs = [('s', -s), ('s', s)]
+        elif shape == 'union':
+            # a filler cell whose geometry is a union at top level (and its complement)
+            s = new_surf('px', [a])
+            t = new_surf('py', [Fr(0)])
+            regs = [('or', ('s', -s), ('s', t)), ('and', ('s', s), ('s', -t))]
         elif shape == 'sphere':
             if isinstance(a, RatFn) and a.as_const() is None and inner != 'sphere':
                 pre.append(z3.Real('u%d' % u) > 0)
@@ -278,10 +288,22 @@ def fill_deck(rnd, depth=1, reuse=False, spelling=None, inner='slab', nsym=3, em
         s = new_surf('s', [sh, Fr(0), Fr(0), Fr(1)])
         c2 = new_cell(expr=('s', -s), imp=1)
         conts.append(c2)
-    for c in conts:
-        set_fill(c, 1, 1)
+    if mirror and len(conts) == 2:
+        # the same universe placed twice with the same displacement, once as it is and once mirrored in z
+        # (the two transformations differ in their last entry only)
+        disp = rand_tr(rnd, 'f', pre, rot=False, budget=bud)
+        for c, last in zip(conts, (Fr(1), Fr(-1))):
+            c.fill = 1
+            c.filltr = list(disp) + [Fr(1), Fr(0), Fr(0), Fr(0), Fr(1), Fr(0), Fr(0), Fr(0), last]
+        done_universes.add(1)
+        inner = 'zslab'
+        universe_cells(1, 1)
+    else:
+        for c in conts:
+            set_fill(c, 1, 1)
     rest = tuple(('cell', c.id) for c in conts)
-    new_cell(expr=('and',) + rest if len(rest) > 1 else rest[0], imp=0)
+    # the rest of space, '#n' of the filled containers: usually outside the problem, sometimes a converted cell
+    new_cell(expr=('and',) + rest if len(rest) > 1 else rest[0], imp=1 if rnd.random() < 0.3 else 0)
     # order cells: MCNP does not care; keep creation order
     d.dot_spelling = rnd.random() < 0.35       # ".5" for "0.5" everywhere in the deck
     return d, pre
@@ -524,7 +546,7 @@ HEXAGONS = {
 }
 
 
-def hex_deck(rnd, shape='near-regular', axis='z', dims=2, nsym=2):
+def hex_deck(rnd, shape='near-regular', axis='z', dims=2, nsym=2, cellform='planes', second=False):
     """container filled with universe 5 = one LAT=2 cell (hexagonal prism), elements filled from an array."""
     from . import hexref
     d = dk.Deck()
@@ -559,6 +581,8 @@ def hex_deck(rnd, shape='near-regular', axis='z', dims=2, nsym=2):
         off = CX * RatFn.const(nu) + CY * RatFn.const(nv) + S * RatFn.const(dd)
         off = off.as_const() if off.as_const() is not None else off
         sides.append((to3(Fr(nu), Fr(nv), Fr(0)), off))
+    if cellform == 'rhp':
+        return _hex_rhp_deck(rnd, d, pre, bud, verts, scale, cx, cy, to3, axis)
     # listing order: opposite pairs are (i, i+3); pick the first pair, its orientation, the second pair, ...
     pairs = [(0, 3), (1, 4), (2, 5)]
     rnd.shuffle(pairs)
@@ -592,6 +616,77 @@ def hex_deck(rnd, shape='near-regular', axis='z', dims=2, nsym=2):
         leaves += tail
     lat = dk.Cell(2, ('and',) + tuple(leaves), imp=1, u=5, lat=2)
     ranges = [rnd.choice([(0, 1), (-1, 0), (0, 0), (-1, 1)]) for _ in range(dims)]
+    size = 1
+    for lo_, hi_ in ranges:
+        size *= hi_ - lo_ + 1
+    while size > 6:
+        k = rnd.randrange(len(ranges))
+        ranges[k] = (ranges[k][0], ranges[k][0])
+        size = 1
+        for lo_, hi_ in ranges:
+            size *= hi_ - lo_ + 1
+    d.mats = {1: [('13027', '1.0')], 2: [('13027', '1.0')], 3: [('1001', '2'), ('8016', '1')], 4: [('13027', '1.0')]}
+    d.cells.append(dk.Cell(11, ('or', ('s', -50), ('s', 50)), mat=1, rho='-1.0', imp=1, u=1))
+    d.surfs.append(dk.Surf(62, 's', [Fr(0), Fr(0), Fr(0), Fr(1, 2)]))
+    d.cells.append(dk.Cell(12, ('s', -62), mat=2, rho='-2.0', imp=1, u=2))
+    d.cells.append(dk.Cell(22, ('s', 62), mat=3, rho='0.1', imp=1, u=2))
+    pool = [1, 2, 0, 5]
+    univs = [rnd.choice(pool) for _ in range(size)]
+    if all(u in (0, 5) for u in univs):
+        univs[0] = 2
+    lat.fill = dk.LatFill(ranges, univs)
+    if 5 in univs:
+        lat.mat, lat.rho = 4, '-9.0'
+    d.cells.insert(1, lat)
+    outside = ('s', 50)
+    if second:
+        # a second hexagonal lattice: same side normals, senses and listing order, another size and place
+        s2 = Fr(3, 2) if not (not isinstance(scale, RatFn) and scale == Fr(3, 2)) else Fr(2)
+        c2 = (Fr(30), Fr(0))
+        leaves2 = []
+        for j, k in enumerate(order):
+            nrm, _off = sides[k]
+            (x1, y1) = verts[k]
+            nu, nv = nrm[perm[0]], nrm[perm[1]]
+            dd = nu * x1 + nv * y1
+            d.surfs.append(dk.Surf(71 + j, 'p', nrm + [nu * c2[0] + nv * c2[1] + s2 * dd]))
+            leaves2.append(('s', -(71 + j)))
+        if dims == 3:
+            leaves2 += tail
+        d.surfs.append(dk.Surf(70, 's', to3(Fr(30), Fr(0), Fr(0)) + [Fr(4)]))
+        d.cells.append(dk.Cell(3, ('s', -70), imp=1, fill=6))
+        d.mats[5] = [('13027', '1.0')]
+        lat2 = dk.Cell(4, ('and',) + tuple(leaves2), mat=5, rho='-8.0', imp=1, u=6, lat=2)
+        r2 = [(-1, 1)] + [(0, 0)] * (len(ranges) - 1)
+        lat2.fill = dk.LatFill(r2, rnd.choice([[1, 6, 1], [6, 1, 0], [1, 1, 6]]))
+        d.cells.insert(1 if rnd.random() < 0.5 else 2, lat2)
+        outside = ('and', ('s', 50), ('s', 70))
+    d.cells.append(dk.Cell(99, outside, imp=0))
+    return d, pre
+
+
+def _hex_rhp_deck(rnd, d, pre, bud, verts, scale, cx, cy, to3, axis):
+    """LAT=2 cell bounded by the macrobody RHP in its 15-entry form (r, s, t given: any centrally symmetric
+    hexagon); facets .1/.2 across +-r (index i), .3/.4 across +-s (index j), .7/.8 top/base (index k)."""
+    S = scale if not (isinstance(scale, RatFn) and scale.as_const() is None) else Fr(1)
+    S = S.as_const() if isinstance(S, RatFn) else S
+    feet = []
+    for i in range(6):
+        (x1, y1), (x2, y2) = verts[i], verts[(i + 1) % 6]
+        nu, nv = (y2 - y1), -(x2 - x1)
+        dd = nu * x1 + nv * y1
+        f = S * dd / (nu * nu + nv * nv)
+        feet.append((nu * f, nv * f))
+    i0, dirn = rnd.randrange(6), rnd.choice([1, -1])
+    ks = [i0, (i0 + dirn) % 6, (i0 + 2 * dirn) % 6]         # [-1,1,0] lies across the third of them
+    z0 = bud.num('zl', pre, choices=[-1, Fr(-1, 2), 0])
+    H = Fr(rnd.choice([2, Fr(3, 2)])) * rnd.choice([1, -1])   # the height may point down the axis
+    prm = to3(cx, cy, z0) + to3(Fr(0), Fr(0), H)
+    for k in ks:
+        prm += to3(feet[k][0], feet[k][1], Fr(0))
+    d.surfs.append(dk.Surf(20, rnd.choice(['rhp', 'hex']), prm))
+    lat = dk.Cell(2, ('s', -20), imp=1, u=5, lat=2)
+    ranges = [rnd.choice([(0, 1), (-1, 0), (0, 0), (-1, 1)]) for _ in range(3)]
     size = 1
     for lo_, hi_ in ranges:
         size *= hi_ - lo_ + 1
